@@ -258,7 +258,7 @@ def faultObs (ws : List String) : String :=
         let waited := (List.range wk).all fun w => run.log.contains (.awaitWorker w)
         s!" stop={if run.returned then "resolved" else "never"} early={bit (!waited)}"
       else ""
-    head ++ second ++ (if pr then s!" pair={wk}/{wk}" else "") ++ stop
+    head ++ second ++ (if pr then s!" pair={wk}/{wk}" ++ (match lim with | some l => s!" peak={l}" | none => "") else "") ++ stop
   | _, _, _, _, _, _, _ => "bad-op"
 
 def sigObs (ws : List String) : String :=
